@@ -381,8 +381,11 @@ class Gen:
     def states(self, target):
         return REPLICA_STATES if target == "replica" else controller_states(self.rng)
 
-    def case(self, target, state, reqs):
-        return dict(target=target, state=state, reqs=reqs)
+    def case(self, target, state, reqs, load=False):
+        c = dict(target=target, state=state, reqs=reqs)
+        if load:
+            c["load"] = True
+        return c
 
     def matrix(self, target, states=None, routes=None, full=False):
         """every route x its own method x body kinds x id kinds (one state each, rotating), and every
@@ -487,6 +490,22 @@ class Gen:
                         cases.append(self.case(target, st, [main, self.req(target, look)]))
         return cases
 
+    def under_load(self):
+        """controller: every route with a valid request while four goroutines issue I/O through the controller (a
+        writer is almost always waiting for the controller lock), each in a fresh child with all rf replicas RW,
+        followed by a read of the object"""
+        cases = []
+        target = "controller"
+        sts = [s for s in self.states(target) if s["kind"] == "rf3-attached"][:1] or self.states(target)[:1]
+        look = self.route(target, "/v1/replicas")
+        for r in self.routes[target]:
+            idxs = [None]
+            if "/replicas/{id}" in r["path"]:
+                idxs = [1]
+            for idx in idxs:
+                cases.append(self.case(target, sts[0], [self.req(target, r, idx=idx), self.req(target, r, idx=idx), self.req(target, look)], load=True))
+        return cases
+
     def chain_matrix(self):
         """controller, one RW and one WO replica: every pair of chain lengths (0..4) x (0..4) the two may
         report at the moment a rebuild request arrives (0: a replica that is closed / restarting reports no
@@ -571,7 +590,7 @@ def trim(case, out):
     at = out.get("at", -1)
     if at is None or at < 0:
         at = len(case["reqs"]) - 1
-    return dict(target=case["target"], state=case["state"], reqs=[dict(r) for r in case["reqs"][:at + 1]])
+    return dict(case, reqs=[dict(r) for r in case["reqs"][:at + 1]])
 
 
 REGISTERED = set()     # (target, method, path template, query) of the real routers, filled by Gen
@@ -601,7 +620,7 @@ def shrink(ctx, fuzzbin, case, out, rounds=8):
             break
         cands = []
         for i in range(n - 1):
-            cands.append(dict(target=cur["target"], state=cur["state"], reqs=cur["reqs"][:i] + cur["reqs"][i + 1:]))
+            cands.append(dict(cur, reqs=cur["reqs"][:i] + cur["reqs"][i + 1:]))
         outs = run_cases(ctx, fuzzbin, [json.loads(json.dumps(c)) for c in cands], tag="shr%d" % rd)
         hit = None
         for c, o in zip(cands, outs):
